@@ -243,12 +243,15 @@ class Gen:
     permutation, constrained patterns occur in the expanded name of the constraining rule (temporaries:
     in its own text), option/argument patterns are named patterns occurring in some rule name."""
 
-    def __init__(self, rng, max_rules=6, max_len=4, signing=0.5, p_forward=0.15):
+    def __init__(self, rng, max_rules=6, max_len=4, signing=0.5, p_forward=0.15, p_redef=0.18, p_twin=0.5, force_twin=0.0):
         self.rng = rng
         self.max_rules = max_rules
         self.max_len = max_len
         self.signing = signing
         self.p_forward = p_forward
+        self.p_redef = p_redef
+        self.p_twin = p_twin
+        self.force_twin = force_twin
 
     def schema(self):
         rng = self.rng
@@ -261,9 +264,9 @@ class Gen:
         self.pats = {}            # id -> named patterns possibly in its expansion
         for i in range(n):
             x = rng.random()
-            if ids and x < 0.18:
+            if ids and x < self.p_redef:
                 rid = rng.choice(ids)                      # redefinition
-            elif x < 0.30:
+            elif x < self.p_redef + 0.12:
                 rid = rng.choice(['#_k', '#_', '#_t'])     # temporary rule (never referenced)
             else:
                 rid = '#r%d' % (len(ids) + 1)
@@ -271,10 +274,25 @@ class Gen:
                 rank[rid] = len(rank)
                 if rid[1] != '_':
                     ids.append(rid)
+            twins = [k for k, r in enumerate(rules) if r['id'] == rid]
+            if twins and rng.random() < self.p_twin:
+                # a twin definition: the same name (and, below, the same constraints) written once more, to be
+                # given its own signers - both definitions end on one node of the tree, signers are alternatives
+                plain = [k for k in twins if not any(i['k'] == 'p' and i['p'][0] == '_' for i in rules[k]['name'])]
+                src = rng.choice(plain or twins)
+                r = rule(rid, json.loads(json.dumps(rules[src]['name'])))
+                r['_named'] = list(rules[src]['_named'])
+                r['_twin'] = src
+                rules.append(r)
+                continue
             rules.append(self._rule(rid, [q for q in ids if rank[q] < rank[rid]]))
         # named patterns that occur in some name
         occurring = sorted({i['p'] for r in rules for i in r['name'] if i['k'] == 'p' and i['p'][0] != '_'})
         for r in rules:
+            if '_twin' in r:
+                r.pop('_named')
+                r['cons'] = json.loads(json.dumps(rules[r['_twin']]['cons']))
+                continue
             self._constraints(r, occurring)
         if rng.random() < self.signing or True:
             perm = list(ids)
@@ -284,6 +302,29 @@ class Gen:
                 later = [q for q in perm if r['id'][1] == '_' or pos[q] > pos[r['id']]]
                 if later and rng.random() < self.signing:
                     r['sign'] = sorted(set(rng.sample(later, min(len(later), rng.choice([1, 1, 2])))))
+                if '_twin' in r:
+                    src = rules[r.pop('_twin')]
+                    other = [q for q in later if q not in src['sign']]
+                    if other and set(r['sign']) <= set(src['sign']):      # the twin brings a signer of its own
+                        r['sign'] = sorted(set(r['sign']) | {rng.choice(other)})
+            if rng.random() < self.force_twin:
+                # make sure there is a twin definition whose signer the earlier definitions do not have
+                short = lambda q: self.minlen.get(q, 9) <= 3
+                cands = []
+                for k, r in enumerate(rules):
+                    if r['id'][1] == '_' or not short(r['id']):
+                        continue
+                    have = set().union(*[set(x['sign']) for x in rules if x['id'] == r['id']])
+                    other = [q for q in perm if pos[q] > pos[r['id']] and q not in have and short(q)]
+                    if other:
+                        plain = not any(i['k'] == 'p' and i['p'][0] == '_' for i in r['name'])
+                        cands.append((0 if plain else 1, k, other))
+                if cands:
+                    best = min(c[0] for c in cands)
+                    _, k, other = rng.choice([c for c in cands if c[0] == best])
+                    t = json.loads(json.dumps(rules[k]))
+                    t['sign'] = [rng.choice(other)]
+                    rules.append(t)
         return rules
 
     def _rule(self, rid, refs):
@@ -307,7 +348,9 @@ class Gen:
                 p = rng.choice(self.named)
                 name.append(P(p)); used += 1; own_named.add(p)
             else:
-                name.append(P(rng.choice(TEMPS))); used += 1
+                have = [i['p'] for i in name if i['k'] == 'p' and i['p'][0] == '_']
+                # the same temporary identifier at several positions: one constraint then covers them all
+                name.append(P(rng.choice(have) if have and rng.random() < 0.5 else rng.choice(TEMPS))); used += 1
         r = rule(rid, name)
         self.minlen[rid] = min(self.minlen.get(rid, 99), used)
         self.pats[rid] = self.pats.get(rid, set()) | own_named
